@@ -454,6 +454,25 @@ theorem decodeBuf_spec (a : CallArgs) (b : Pool.Buf) :
   have := a.hn
   simp [decodeBuf, Pool.decode, this, Pool.Buf.visible]
 
+/-- whatever `Pool.get` hands out (any pools, any pick): `decodeBuf` on it is `Pool.decode`'s result, i.e.
+    `doPoolGet` at `runnerSem` performs exactly `get` + the decode loop of the C12 pool model -/
+theorem decodeBuf_of_get (p : Pool.Pools) (a : CallArgs) (pick : Option Nat) :
+    Pool.decode (Pool.get p a.needed a.maxPool pick).buf a.runes =
+      some (decodeBuf a (Pool.get p a.needed a.maxPool pick).buf) := by
+  have h := (Props.C12.pool_get_len p a.needed a.maxPool pick).1
+  generalize (Pool.get p a.needed a.maxPool pick).buf = b at h
+  have := (decodeBuf_spec a b).1
+  have e : ({ b with len := a.needed } : Pool.Buf) = b := by cases b; simp_all
+  rw [e] at this
+  exact this
+
+/-- a buffer `Pool.get` takes out of the class list it consults passes `fitsBuf` (under the class
+    invariant of `poolIndex_put_get_consistent`: capacity = class size), and vice versa `get` keeps it -/
+theorem fitsBuf_iff (sizes : List Nat) (a : CallArgs) (b : Pool.Buf) (idx : Nat)
+    (hi : Pool.poolIndex sizes a.needed a.maxPool = some idx) (hc : b.cap = sizes.getD idx 0) :
+    fitsBuf sizes a b = decide (b.cap ≥ a.needed) := by
+  simp [fitsBuf, hi, hc]
+
 /-! ### a checker for `LiveWF` on concrete lists (used by the non-vacuity examples) -/
 
 def refsBelow : List Int → Nat → Bool
